@@ -18,7 +18,7 @@ EXTENDS Naturals, Sequences, FiniteSets, TLC
 
 CONSTANT Dev
 
-VARIABLES scn,     \* scenario: [spelling, out, pre, fail]
+VARIABLES scn,     \* scenario: [spelling, out, pre, fail, sib]
           pc,      \* remaining stages
           outf,    \* state of the output file: "absent" | "old" | "empty" | "new"
           exit     \* "running" | "ok" | "error"
@@ -28,7 +28,12 @@ Spellings == {"abs", "rel", "dotrel", "bare"}
 Outs == {"default", "explicit_same", "explicit_other"}
 Pres == {"absent", "shorter", "longer"}
 Fails == {"none", "missing_input", "bad_xml", "unresolved_import", "unsupported_binding", "reachable_unreadable", "out_dir_missing"}
-Scenarios == [spelling : Spellings, out : Outs, pre : Pres, fail : Fails]
+\* how the files of the input directory are stored: all regular files, the imported sibling a symbolic link to a regular
+\* file kept elsewhere, or the input itself such a link.  The CONTENTS of the directory are the same in all three, so
+\* nothing below depends on `sib` - which is the statement "the result depends on file contents only".
+Sibs == {"regular", "symlink_sibling", "symlink_input"}
+Scenarios == {s \in [spelling : Spellings, out : Outs, pre : Pres, fail : Fails, sib : Sibs] :
+                s.sib # "regular" => (s.fail \in {"none", "unresolved_import", "bad_xml"} /\ s.pre # "shorter")}
 
 \* which stage a failure class strikes
 FailStage(f) == CASE f = "missing_input" -> "locate"
